@@ -283,6 +283,8 @@ def check_case(col, t, seed, algs, kind):
         fam = ALGS[name]["fam"]
         if not is_perm and fam == "ssi" and base_refs:
             continue
+        if kind == "decay" and fam == "plscf":
+            continue      # noise-free decays give pLSCF spurious poles of damping ~0 +- 1e-10: their hard-criteria verdict is rounding
         col.count()
         try:
             ab, judged = base_run(name, X, FS, base_refs, (name, seed, kind, tuple(base_refs)))
